@@ -165,6 +165,9 @@ func runC11(r *Run) {
 			c10R3(r, li)
 		}
 	})
+
+	r.Rule("C11.R7")
+	c11SANLists(r)
 }
 
 // ---- IsFatal decision table ---------------------------------------------------------
